@@ -20,6 +20,7 @@ import (
 	collectortypes "github.com/comdex-official/comdex/x/collector/types"
 	esmtypes "github.com/comdex-official/comdex/x/esm/types"
 	liquidationsV2 "github.com/comdex-official/comdex/x/liquidationsV2"
+	liq1types "github.com/comdex-official/comdex/x/liquidation/types"
 	liqtypes "github.com/comdex-official/comdex/x/liquidationsV2/types"
 	lockertypes "github.com/comdex-official/comdex/x/locker/types"
 	markettypes "github.com/comdex-official/comdex/x/market/types"
@@ -57,6 +58,15 @@ type c13Env struct {
 	users     []sdk.AccAddress // locker users (projected)
 	borrowers []sdk.AccAddress // vault users (not projected)
 	userIdx   map[string]int
+	products  []c13Product
+}
+
+// c13Product: one extended pair vault (vault product). Closing fee ∈ {0, small, large} × stability fee ∈ {0, > 0} × draw-down fee
+// ∈ {0, > 0}; `stable` = stable-mint (PSM) product on the pair ATOM → CMST.
+type c13Product struct {
+	app, ext                     uint64
+	closing, stability, drawdown string
+	stable                       bool
 }
 
 func c13Addr(tag string, i int) sdk.AccAddress {
@@ -123,22 +133,57 @@ func c13Setup(t *testing.T, tr *Trace, rng *Rng) (*c13Env, sdk.Context) {
 	if err := app.AssetKeeper.AddPairsRecords(ctx, assettypes.Pair{AssetIn: c13AssetColl, AssetOut: c13AssetCmst}); err != nil {
 		t.Fatal(err)
 	}
-	for _, appID := range []uint64{1, 2} {
-		if err := app.AssetKeeper.WasmAddExtendedPairsVaultRecords(ctx, &bindings.MsgAddExtendedPairsVault{
-			AppID: appID, PairID: 1, StabilityFee: sdk.MustNewDecFromStr("0.25"), ClosingFee: sdk.MustNewDecFromStr("0.02"),
-			LiquidationPenalty: sdk.MustNewDecFromStr("0.15"), DrawDownFee: sdk.MustNewDecFromStr("0.01"), IsVaultActive: true,
-			DebtCeiling: sdk.NewInt(1000000000000000000), DebtFloor: sdk.NewInt(1000), IsStableMintVault: false,
-			MinCr: sdk.MustNewDecFromStr("1.5"), PairName: "CMDX-" + string(rune('A'+appID)), AssetOutOraclePrice: false, AssetOutPrice: 1000000,
-			MinUsdValueLeft: 1}); err != nil {
-			t.Fatal(err)
+	if err := app.AssetKeeper.AddPairsRecords(ctx, assettypes.Pair{AssetIn: c13AssetAtom, AssetOut: c13AssetCmst}); err != nil {
+		t.Fatal(err)
+	}
+	type fees struct {
+		tag, closing, stability, drawdown string
+		stable                            bool
+	}
+	for _, f := range []fees{
+		{"A", "0.02", "0.25", "0.01", false}, // the product of the earlier rounds (extended pair ids 1, 2)
+		{"B", "0", "0.25", "0", false},
+		{"C", "0.3", "0", "0.01", false},
+		{"D", "0.005", "0", "0", false},
+		{"S", "0", "0", "0.01", true},
+		{"T", "0", "0", "0", true},
+	} {
+		for _, appID := range []uint64{1, 2} {
+			name := "CMDX-" + f.tag + string(rune('A'+appID))
+			pairID := uint64(1)
+			if f.stable {
+				pairID = 2
+			}
+			if err := app.AssetKeeper.WasmAddExtendedPairsVaultRecords(ctx, &bindings.MsgAddExtendedPairsVault{
+				AppID: appID, PairID: pairID, StabilityFee: sdk.MustNewDecFromStr(f.stability), ClosingFee: sdk.MustNewDecFromStr(f.closing),
+				LiquidationPenalty: sdk.MustNewDecFromStr("0.15"), DrawDownFee: sdk.MustNewDecFromStr(f.drawdown), IsVaultActive: true,
+				DebtCeiling: sdk.NewInt(1000000000000000000), DebtFloor: sdk.NewInt(1000), IsStableMintVault: f.stable,
+				MinCr: sdk.MustNewDecFromStr("1.5"), PairName: name, AssetOutOraclePrice: false, AssetOutPrice: 1000000,
+				MinUsdValueLeft: 1}); err != nil {
+				t.Fatal(err)
+			}
+			pvs, _ := app.AssetKeeper.GetPairsVaults(ctx)
+			for _, pv := range pvs {
+				if pv.PairName == name && pv.AppId == appID {
+					e.products = append(e.products, c13Product{app: appID, ext: pv.Id, closing: f.closing, stability: f.stability, drawdown: f.drawdown, stable: f.stable})
+				}
+			}
 		}
+	}
+	for _, appID := range []uint64{1, 2} {
 		if err := app.Rewardskeeper.WhitelistAppIDVault(ctx, appID); err != nil {
 			t.Fatal(err)
 		}
+		// both liquidation generations are configured for the app (used by the penalty histories)
+		app.LiquidationKeeper.SetAppIDForLiquidation(ctx, appID)
+	}
+	if len(e.products) != 12 {
+		t.Fatalf("products: %d", len(e.products))
 	}
 	for _, b := range e.borrowers {
 		e.mint(ctx, b, "", c13AssetColl, sdk.NewInt(1).MulRaw(1e18))
 		e.mint(ctx, b, "", c13AssetCmst, sdk.NewInt(1e15))
+		e.mint(ctx, b, "", c13AssetAtom, sdk.NewInt(1e15))
 	}
 	return e, ctx
 }
@@ -368,6 +413,198 @@ func (e *c13Env) actCount(ctx sdk.Context, before c13ActSnap, gen string) {
 			e.tr.Count("act:" + gen + ":no-start")
 		}
 	}
+}
+
+func (e *c13Env) vaultOf(ctx sdk.Context, b sdk.AccAddress, ext uint64) (uint64, bool) {
+	for _, v := range e.app.VaultKeeper.GetVaults(ctx) {
+		if v.Owner == b.String() && v.ExtendedPairVaultID == ext {
+			return v.Id, true
+		}
+	}
+	return 0, false
+}
+
+func c13Cell(x sdk.Int) string {
+	if x.IsZero() {
+		return "0"
+	}
+	return ">0"
+}
+
+// vaultMsg delivers one real vault message and writes the fee line: what the collector's category counters say was booked
+// (external input of the model) against the net-fee record and the collector's balance (compared / monitored). The statistics
+// `cell:<inflow>:<component>=0|>0` enumerate which (inflow kind × zero / non-zero component) cells the run reached.
+func (e *c13Env) vaultMsg(ctx sdk.Context, b sdk.AccAddress, pr c13Product, kind string, vid uint64) bool {
+	rng, tr := e.rng, e.tr
+	o0, s0, c0 := e.collectorParts(ctx, pr.app, c13AssetCmst)
+	var msg sdk.Msg
+	switch kind {
+	case "vcreate":
+		out := sdk.NewInt(int64(1000 + rng.Intn(50000000)))
+		msg = &vaulttypes.MsgCreateRequest{From: b.String(), AppId: pr.app, ExtendedPairVaultId: pr.ext, AmountIn: out.MulRaw(int64(2 + rng.Intn(4))), AmountOut: out}
+	case "vdraw":
+		msg = &vaulttypes.MsgDrawRequest{From: b.String(), AppId: pr.app, ExtendedPairVaultId: pr.ext, UserVaultId: vid, Amount: sdk.NewInt(int64(1 + rng.Intn(2000000)))}
+	case "vrepay":
+		msg = &vaulttypes.MsgRepayRequest{From: b.String(), AppId: pr.app, ExtendedPairVaultId: pr.ext, UserVaultId: vid, Amount: sdk.NewInt(int64(1 + rng.Intn(3000000)))}
+	case "vrepay-all-interest":
+		// first let the interest accrue to now (MsgVaultInterestCalc does what every vault message does first), then repay it plus a bit
+		_ = e.deliver(ctx, &vaulttypes.MsgVaultInterestCalcRequest{From: b.String(), AppId: pr.app, UserVaultId: vid})
+		v, _ := e.app.VaultKeeper.GetVault(ctx, vid)
+		msg = &vaulttypes.MsgRepayRequest{From: b.String(), AppId: pr.app, ExtendedPairVaultId: pr.ext, UserVaultId: vid, Amount: v.InterestAccumulated.AddRaw(int64(1 + rng.Intn(50)))}
+	case "vclose":
+		msg = &vaulttypes.MsgCloseRequest{From: b.String(), AppId: pr.app, ExtendedPairVaultId: pr.ext, UserVaultId: vid}
+	}
+	out := e.deliver(ctx, msg)
+	tr.Count(kind + ":" + out)
+	if out != "ok" {
+		return false
+	}
+	o1, s1, c1 := e.collectorParts(ctx, pr.app, c13AssetCmst)
+	if kind == "vclose" {
+		i, c := s1.Sub(s0), c1.Sub(c0)
+		tr.Count("cell:close:interest=" + c13Cell(i) + ":closingfee=" + c13Cell(c))
+		tr.Line("lk.feeclose", u(pr.app), u(c13AssetCmst), i.String(), c.String(), out, e.state(ctx))
+		return true
+	}
+	x := o1.Sub(o0).Add(s1.Sub(s0))
+	switch kind {
+	case "vcreate", "vdraw":
+		tr.Count("cell:" + kind[1:] + ":drawdownfee=" + c13Cell(o1.Sub(o0)))
+	default:
+		tr.Count("cell:repay:interest=" + c13Cell(s1.Sub(s0)))
+	}
+	tr.Line("lk.feevault", u(pr.app), u(c13AssetCmst), x.String(), out, e.state(ctx))
+	return true
+}
+
+// stableMintOp: create / deposit / withdraw on a stable-mint product (draw-down fee zero or not); the fee is an opening-fee inflow.
+func (e *c13Env) stableMintOp(ctx sdk.Context, b sdk.AccAddress, pr c13Product) {
+	rng, tr := e.rng, e.tr
+	var sid uint64
+	for _, v := range e.app.VaultKeeper.GetStableMintVaults(ctx) {
+		if v.AppId == pr.app && v.ExtendedPairVaultID == pr.ext {
+			sid = v.Id
+		}
+	}
+	o0, _, _ := e.collectorParts(ctx, pr.app, c13AssetCmst)
+	amt := sdk.NewInt(int64(1000 + rng.Intn(30000000)))
+	var msg sdk.Msg
+	kind := ""
+	switch {
+	case sid == 0:
+		msg, kind = &vaulttypes.MsgCreateStableMintRequest{From: b.String(), AppId: pr.app, ExtendedPairVaultId: pr.ext, Amount: amt}, "stablecreate"
+	case rng.Chance(60):
+		msg, kind = &vaulttypes.MsgDepositStableMintRequest{From: b.String(), AppId: pr.app, ExtendedPairVaultId: pr.ext, Amount: amt, StableVaultId: sid}, "stabledeposit"
+	default:
+		msg, kind = &vaulttypes.MsgWithdrawStableMintRequest{From: b.String(), AppId: pr.app, ExtendedPairVaultId: pr.ext, Amount: amt.QuoRaw(3).AddRaw(1), StableVaultId: sid}, "stablewithdraw"
+	}
+	out := e.deliver(ctx, msg)
+	tr.Count(kind + ":" + out)
+	if out != "ok" {
+		return
+	}
+	o1, _, _ := e.collectorParts(ctx, pr.app, c13AssetCmst)
+	x := o1.Sub(o0)
+	tr.Count("cell:" + kind + ":drawdownfee=" + c13Cell(x))
+	tr.Line("lk.feevault", u(pr.app), u(c13AssetCmst), x.String(), out, e.state(ctx))
+}
+
+// penaltySequence: a liquidation penalty booked by the REAL auction code of either generation. A borrower opens a vault at the
+// minimum collateral ratio, the collateral price falls, the vault is seized (gen 1: x/liquidation MsgLiquidateVault + x/auction Dutch
+// auction; gen 2: liquidationsV2 + auctionsV2 Dutch auction), a bidder buys everything. Seizure and bidding are outside the model
+// (`lk.sync`); on the bid that closes the auction the penalty x := what arrived at the collector is the external input of
+// `lk.penalty` — the model then demands that the net-fee record of (app, debt asset) moved by exactly x.
+func (e *c13Env) penaltySequence(base sdk.Context, gen1 bool, prIdx int) {
+	ctx, _ := base.CacheContext()
+	app, tr, rng := e.app, e.tr, e.rng
+	pr := e.products[prIdx]
+	gen := "gen2"
+	if gen1 {
+		gen = "gen1"
+	}
+	app.AuctionKeeper.SetAuctionParams(ctx, auctiontypes.AuctionParams{AppId: pr.app, AuctionDurationSeconds: 3600, Buffer: sdk.MustNewDecFromStr("1.2"),
+		Cusp: sdk.MustNewDecFromStr("0.7"), Step: sdk.NewInt(1), PriceFunctionType: 1, SurplusId: 1, DebtId: 2, DutchId: 3, BidDurationSeconds: 3600})
+	app.NewliqKeeper.SetLiquidationWhiteListing(ctx, liqtypes.LiquidationWhiteListing{AppId: pr.app, Initiator: true, IsDutchActivated: true,
+		DutchAuctionParam:  &liqtypes.DutchAuctionParam{Premium: sdk.MustNewDecFromStr("1.2"), Discount: sdk.MustNewDecFromStr("0.7"), DecrementFactor: sdk.NewInt(1)},
+		IsEnglishActivated: false, EnglishAuctionParam: &liqtypes.EnglishAuctionParam{DecrementFactor: sdk.NewInt(1)}, KeeeperIncentive: sdk.MustNewDecFromStr("0.1")})
+	app.NewaucKeeper.SetAuctionParams(ctx, auctionsV2types.AuctionParams{AuctionDurationSeconds: 3600, Step: sdk.MustNewDecFromStr("0.1"),
+		WithdrawalFee: sdk.ZeroDec(), ClosingFee: sdk.ZeroDec(), MinUsdValueLeft: 100000, BidFactor: sdk.MustNewDecFromStr("0.1"),
+		LiquidationPenalty: sdk.MustNewDecFromStr("0.1"), AuctionBonus: sdk.ZeroDec()})
+	tr.Line("lk.begin", "assets=1,2,3,4", "apps=1,2", e.collkField(ctx))
+	tr.Count("seq:penalty:" + gen)
+	owner, bidder := e.borrowers[0], e.borrowers[1]
+	out := sdk.NewInt(int64(2000000 + rng.Intn(30000000)))
+	o0, _, _ := e.collectorParts(ctx, pr.app, c13AssetCmst)
+	// price 2.0, min CR 1.5: collateral = 0.76 × debt is just above the limit
+	res := e.deliver(ctx, &vaulttypes.MsgCreateRequest{From: owner.String(), AppId: pr.app, ExtendedPairVaultId: pr.ext, AmountIn: out.MulRaw(76).QuoRaw(100), AmountOut: out})
+	if res != "ok" {
+		tr.Count("penalty:" + gen + ":create-failed")
+		return
+	}
+	o1, _, _ := e.collectorParts(ctx, pr.app, c13AssetCmst)
+	tr.Line("lk.feevault", u(pr.app), u(c13AssetCmst), o1.Sub(o0).String(), "ok", e.state(ctx))
+	vid, _ := e.vaultOf(ctx, owner, pr.ext)
+	ctx = ctx.WithBlockTime(ctx.BlockTime().Add(time.Duration(1+rng.Intn(86400*30)) * time.Second)).WithBlockHeight(ctx.BlockHeight() + 10)
+	app.MarketKeeper.SetTwa(ctx, markettypes.TimeWeightedAverage{AssetID: c13AssetColl, ScriptID: 12, Twa: 1500000, CurrentIndex: 0,
+		IsPriceActive: true, PriceValue: []uint64{1500000}})
+	if gen1 {
+		res = e.deliver(ctx, &liq1types.MsgLiquidateVaultRequest{From: bidder.String(), AppId: pr.app, VaultId: vid})
+	} else {
+		res = e.deliver(ctx, &liqtypes.MsgLiquidateInternalKeeperRequest{From: bidder.String(), LiqType: 0, Id: vid})
+	}
+	tr.Count("penalty:" + gen + ":seize:" + res)
+	tr.Line("lk.sync", e.state(ctx))
+	colBal := func() sdk.Int {
+		return app.BankKeeper.GetBalance(ctx, authtypes.NewModuleAddress("collectorV1"), c13Denom[c13AssetCmst]).Amount
+	}
+	for round := 0; round < 6; round++ {
+		before := colBal()
+		closed := false
+		if gen1 {
+			as := app.AuctionKeeper.GetDutchAuctions(ctx, pr.app)
+			if len(as) == 0 {
+				break
+			}
+			a := as[0]
+			res = e.deliver(ctx, &auctiontypes.MsgPlaceDutchBidRequest{AuctionId: a.AuctionId, Bidder: bidder.String(),
+				Amount: sdk.NewCoin(a.OutflowTokenCurrentAmount.Denom, a.OutflowTokenCurrentAmount.Amount), AppId: a.AppId, AuctionMappingId: a.AuctionMappingId})
+			_, err := app.AuctionKeeper.GetDutchAuction(ctx, a.AppId, a.AuctionMappingId, a.AuctionId)
+			closed = res == "ok" && err != nil
+		} else {
+			as := app.NewaucKeeper.GetAuctions(ctx)
+			if len(as) == 0 {
+				break
+			}
+			a := as[0]
+			res = e.deliver(ctx, &auctionsV2types.MsgPlaceMarketBidRequest{AuctionId: a.AuctionId, Bidder: bidder.String(), Amount: a.DebtToken})
+			_, err := app.NewaucKeeper.GetAuction(ctx, a.AuctionId)
+			closed = res == "ok" && err != nil
+		}
+		tr.Count("penalty:" + gen + ":bid:" + res)
+		if closed {
+			x := colBal().Sub(before)
+			tr.Count("cell:penalty:" + gen + ":x=" + c13Cell(x))
+			if gen1 {
+				tr.Line("lk.penalty", u(pr.app), u(c13AssetCmst), x.String(), "ok", e.state(ctx))
+			} else {
+				// the second generation names both assets of the auction; which record it credits is the model's business
+				tr.Line("lk.v2penalty", u(pr.app), u(c13AssetColl), u(c13AssetCmst), x.String(), "ok", e.state(ctx))
+			}
+			return
+		}
+		tr.Line("lk.sync", e.state(ctx))
+		if res != "ok" {
+			// the Dutch price may still be too high for the collateral left: let it decay
+			ctx = ctx.WithBlockTime(ctx.BlockTime().Add(600 * time.Second)).WithBlockHeight(ctx.BlockHeight() + 100)
+			if gen1 {
+				_ = app.AuctionKeeper.RestartDutch(ctx, pr.app)
+			} else {
+				auctionsV2.BeginBlocker(ctx, app.NewaucKeeper)
+			}
+			tr.Line("lk.sync", e.state(ctx))
+		}
+	}
+	tr.Count("penalty:" + gen + ":not-closed")
 }
 
 // begin1 runs the REAL first-generation begin-blocker (called directly: x/auction/module.go has the call commented out) and records
@@ -1005,15 +1242,6 @@ func (e *c13Env) mainSequence(base sdk.Context, nops int) {
 		}
 		return ls[rng.Intn(len(ls))], true
 	}
-	// vault of a borrower in an app
-	vaultOf := func(b sdk.AccAddress, appID uint64) (uint64, bool) {
-		for _, v := range app.VaultKeeper.GetVaults(ctx) {
-			if v.Owner == b.String() && v.AppId == appID {
-				return v.Id, true
-			}
-		}
-		return 0, false
-	}
 	for op := 0; op < nops; op++ {
 		// time passes: seconds … months, so that savings and stability interest accrue
 		gap := []int64{0, 1, 6, 3600, 86400, 30 * 86400, 200 * 86400}[rng.Intn(7)]
@@ -1202,43 +1430,49 @@ func (e *c13Env) mainSequence(base sdk.Context, nops int) {
 			t1, t2 := c13T(ctx)
 			tr.Line("lk.lsr", t1, t2, u(k[0]), u(k[1]), newRate.BigInt().String(), newCl.SurplusThreshold.String(), newCl.DebtThreshold.String(),
 				newCl.LotSize.String(), newCl.DebtLotSize.String(), strings.Join(rws, ","), out, e.state(ctx))
-		case p < 80: // fee inflow from a real vault message (asset 2 only)
+		case p < 80: // fee inflows from real vault messages (asset 2), one message or a same-block burst
 			b := e.borrowers[rng.Intn(len(e.borrowers))]
-			appID := apps[rng.Intn(2)]
-			extID := appID // extended pair ids were created in app order
-			o0, s0, c0 := e.collectorParts(ctx, appID, c13AssetCmst)
-			vid, has := vaultOf(b, appID)
-			var msg sdk.Msg
-			kind := ""
-			switch {
-			case !has:
-				out := sdk.NewInt(int64(1000 + rng.Intn(50000000)))
-				msg = &vaulttypes.MsgCreateRequest{From: b.String(), AppId: appID, ExtendedPairVaultId: extID, AmountIn: out.MulRaw(int64(1 + rng.Intn(4))), AmountOut: out}
-				kind = "vcreate"
-			case rng.Chance(35):
-				msg = &vaulttypes.MsgDrawRequest{From: b.String(), AppId: appID, ExtendedPairVaultId: extID, UserVaultId: vid, Amount: sdk.NewInt(int64(1 + rng.Intn(2000000)))}
-				kind = "vdraw"
-			case rng.Chance(60):
-				msg = &vaulttypes.MsgRepayRequest{From: b.String(), AppId: appID, ExtendedPairVaultId: extID, UserVaultId: vid, Amount: sdk.NewInt(int64(1 + rng.Intn(3000000)))}
-				kind = "vrepay"
-			default:
-				msg = &vaulttypes.MsgCloseRequest{From: b.String(), AppId: appID, ExtendedPairVaultId: extID, UserVaultId: vid}
-				kind = "vclose"
-			}
-			out := e.deliver(ctx, msg)
-			tr.Count(kind + ":" + out)
-			if out != "ok" {
+			pr := e.products[rng.Intn(len(e.products))]
+			if pr.stable {
+				e.stableMintOp(ctx, b, pr)
 				continue
 			}
-			o1, s1, c1 := e.collectorParts(ctx, appID, c13AssetCmst)
-			if kind == "vclose" {
-				tr.Line("lk.feeclose", u(appID), u(c13AssetCmst), s1.Sub(s0).String(), c1.Sub(c0).String(), out, e.state(ctx))
-			} else {
-				x := o1.Sub(o0).Add(s1.Sub(s0))
-				if x.IsPositive() {
-					tr.Count("feevault:positive")
+			vid, has := e.vaultOf(ctx, b, pr.ext)
+			if !has && rng.Chance(65) { // prefer working on a vault the borrower already has
+				var mine []vaulttypes.Vault
+				for _, v := range app.VaultKeeper.GetVaults(ctx) {
+					if v.Owner == b.String() {
+						mine = append(mine, v)
+					}
 				}
-				tr.Line("lk.feevault", u(appID), u(c13AssetCmst), x.String(), out, e.state(ctx))
+				if len(mine) > 0 {
+					v := mine[rng.Intn(len(mine))]
+					for _, q := range e.products {
+						if q.ext == v.ExtendedPairVaultID {
+							pr, vid, has = q, v.Id, true
+						}
+					}
+				}
+			}
+			switch {
+			case !has && rng.Chance(35): // opened and closed in the same block: no interest can be pending
+				if e.vaultMsg(ctx, b, pr, "vcreate", 0) {
+					if v, ok := e.vaultOf(ctx, b, pr.ext); ok {
+						e.vaultMsg(ctx, b, pr, "vclose", v)
+					}
+				}
+			case !has:
+				e.vaultMsg(ctx, b, pr, "vcreate", 0)
+			case rng.Chance(25): // repay more than the pending interest, then close in the same block
+				if e.vaultMsg(ctx, b, pr, "vrepay-all-interest", vid) {
+					e.vaultMsg(ctx, b, pr, "vclose", vid)
+				}
+			case rng.Chance(30):
+				e.vaultMsg(ctx, b, pr, "vdraw", vid)
+			case rng.Chance(55):
+				e.vaultMsg(ctx, b, pr, "vrepay", vid)
+			default: // close with whatever interest is pending
+				e.vaultMsg(ctx, b, pr, "vclose", vid)
 			}
 		case p < 86: // liquidation penalty as dutch.go:410-427 / bid.go:175-187 book it
 			a, as := pickKey()
@@ -1266,6 +1500,9 @@ func (e *c13Env) mainSequence(base sdk.Context, nops int) {
 				return ck.SetNetFeeCollectedData(cc, a, as, x)
 			})
 			tr.Count("penalty:" + out)
+			if out == "ok" {
+				tr.Count("cell:penalty:keeper-level:x=" + c13Cell(x))
+			}
 			tr.Line("lk.penalty", u(a), u(as), x.String(), out, e.state(ctx))
 		case p < 89: // surplus lot returned / debt-auction proceeds (surplus.go:204-208, debt.go:245-251)
 			a, as := apps[rng.Intn(2)], lassets[rng.Intn(2)]
@@ -1331,6 +1568,11 @@ func TestC13(t *testing.T) {
 			}
 		}
 	}
+	for _, g1 := range []bool{true, false} {
+		for _, pi := range []int{0, 2} { // product A (fees) and B (no closing fee) of app 1
+			e.penaltySequence(base, g1, pi)
+		}
+	}
 	seqs := scale(60, 1200)
 	maxOps := scale(70, 160)
 	for s := 0; s < seqs; s++ {
@@ -1346,6 +1588,10 @@ func TestC13(t *testing.T) {
 		}
 		if s%8 == 2 || s%8 == 6 {
 			e.activationSequence(base, rng.Range(10, maxOps))
+			continue
+		}
+		if s%16 == 4 {
+			e.penaltySequence(base, rng.Chance(50), rng.Intn(8))
 			continue
 		}
 		e.mainSequence(base, rng.Range(10, maxOps))
